@@ -17,6 +17,8 @@ vals = {k: sv.from_jsonable(v) for k, v in r['values'].items()}
 shapes = grammars.weight_shapes(r['spec'])
 dflt = {'real': 0.75, 'log': -0.5, 'viterbi': -0.5, 'bool': True}[kind]
 flat = {n: [vals.get(f'{n}_{i}', dflt) for i in range(math.prod(shapes[n]))] for n in sorted(shapes)}
+for n, cv in (r.get('concrete') or {}).items():
+    flat[n] = [float(v) for v in cv]
 ch = r['choice']
 ch['rule_perm'] = tuple(ch['rule_perm'])
 ch['edge_perm'] = {int(k): tuple(v) for k, v in ch.get('edge_perm', {}).items()}
